@@ -161,6 +161,20 @@ def same_object(a, b):
     return a is b
 
 
+def re_sub_class_plus(chars, repl, s):
+    import re
+    return re.sub("[%s]+" % re.escape(chars), repl, s)
+
+
+def re_equiv(a, b):
+    """native side cannot decide language equality; compare on a sample"""
+    import re
+    pa = a.pattern if hasattr(a, "pattern") else a
+    pb = b.pattern if hasattr(b, "pattern") else b
+    sample = ["", " ", "a", "\t\n", " a ", "\x0c\r ", "\u00a0", "ab  c"]
+    return all((re.fullmatch(pa, x) is None) == (re.fullmatch(pb, x) is None) for x in sample)
+
+
 def code(c):
     return ord(c)
 
